@@ -143,3 +143,55 @@ def term_bits(t):
         for x in t:
             out |= term_bits(x)
     return out
+
+
+def fn_table(v, atoms=None):
+    """value as an explicit table over frame bits: (atoms, vals) or None (works for affine / bit-exact / table-lookup values)"""
+    from . import ops
+    if not isinstance(v, IntV):
+        return None
+    return ops.ftab_of(v, tuple(atoms) if atoms else ())
+
+
+def aff_table(a, atoms):
+    """an expected affine form (over ('b', n) / ('x', set, c) atoms) tabulated over `atoms`"""
+    from .ops import _bit_val
+    vals = []
+    for m in range(1 << len(atoms)):
+        env = {n: (m >> i) & 1 for i, n in enumerate(atoms)}
+        x = a.c
+        for at, k in a.t.items():
+            x += k * (env[at[1]] if at[0] == "b" else _bit_val(at, env))
+        vals.append(x)
+    return tuple(vals)
+
+
+def same_fn(v, want_aff, defined_only=True):
+    """does the abstract value compute exactly the function `want_aff` of the frame bits?  Decided by the affine form when
+    there is one, else by tabulating both over the bits involved (a lookup-table implementation has no closed form)."""
+    if not isinstance(v, IntV) or want_aff is None:
+        return False
+    a = v.affine()
+    if a is not None and a == want_aff:
+        return True
+    need = set()
+    for at in want_aff.t:
+        if at[0] == "b":
+            need.add(at[1])
+        elif at[0] == "x":
+            need |= set(at[1])
+        else:
+            return False
+    ft = fn_table(v, sorted(need))
+    if ft is None:
+        return False
+    atoms = ft[0]
+    want = aff_table(want_aff, atoms)
+    for g, w in zip(ft[1], want):
+        if g is None:
+            if defined_only:
+                continue
+            return False
+        if g != w:
+            return False
+    return True
